@@ -872,6 +872,13 @@ func (run *vfProdRun) historyForFailure() interface{} {
 	return out
 }
 
+// failAt is fail for a symptom that shows at a known history position: only what happened before it defines the region.
+func (run *vfProdRun) failAt(before int64, symptom, format string, a ...interface{}) *vfcore.Failure {
+	f := run.fail(symptom, format, a...)
+	f.Regions = vfProdRegionsAt(run, before)
+	return f
+}
+
 func (run *vfProdRun) fail(symptom, format string, a ...interface{}) *vfcore.Failure {
 	f := vfcore.Failf(symptom, format, a...)
 	f.History = run.historyForFailure()
